@@ -1028,7 +1028,7 @@ type swamp struct {
 
 	valueBeaconASC  beacon.Beacon // ordered list of the Treasures by the ascendant Value field
 	valueBeaconDESC beacon.Beacon // ordered list of the Treasures by the descendant Value field
-	valueBeaconType BeaconType    // value type the value beacons were built (sorted) with
+	valueBeaconType atomic.Int32  // BeaconType the value beacons were built (sorted) with; written by buildBeacon, read by concurrent saves
 
 	// -------------------  the following fields are used for the unordered list -------------------
 	// treasuresWaitingForWriter just the key of the treasures that are waiting for the writer to write them to the chroniclerInterface
@@ -3197,7 +3197,7 @@ func (s *swamp) buildBeacon(beaconASC beacon.Beacon, beaconDESC beacon.Beacon, b
 	}
 
 	if beaconASC == s.valueBeaconASC {
-		s.valueBeaconType = bc
+		s.valueBeaconType.Store(int32(bc))
 	}
 
 	if !beaconASC.IsInitialized() {
@@ -3371,12 +3371,12 @@ func (s *swamp) addToValueBeacon(treasureInterface treasure.Treasure) {
 		return
 	}
 	s.valueBeaconASC.Add(treasureInterface)
-	err := sortValueBeacon(s.valueBeaconASC, s.valueBeaconType, false)
+	err := sortValueBeacon(s.valueBeaconASC, BeaconType(s.valueBeaconType.Load()), false)
 	if err != nil {
 		slog.Error("failed to sort valueIntBeaconASC", "error", err)
 	}
 	s.valueBeaconDESC.Add(treasureInterface)
-	err = sortValueBeacon(s.valueBeaconDESC, s.valueBeaconType, true)
+	err = sortValueBeacon(s.valueBeaconDESC, BeaconType(s.valueBeaconType.Load()), true)
 	if err != nil {
 		slog.Error("failed to sort valueIntBeaconDESC", "error", err)
 	}
